@@ -647,6 +647,25 @@ def rechunk_grid(ctx: Ctx) -> None:
     sel = f.children.get("selection_function")
     ok = chunks_arg is not None and sel is not None and isinstance(chunks_arg, ast.Name) and any(isinstance(n, ast.Call) and f"{A.UTILS}.get_item" in repo.callee_quals(n, sel) and n.args and unparse(n.args[0]) == chunks_arg.id for n in sel.own_nodes())
     ctx.ob(f, c, ok, "the copy grid that enumerates tasks is the grid the selection function slices the source by", sel="rechunk:copy-grid")
+    # regular (non-irregular) path: the planner rounds each stage's copy chunks against the
+    # chunks that stage writes to, which depend on the stage count being tried
+    pl = repo.get("cubed.core.rechunk.multistage_regular_rechunking_plan")
+    pfl, pcfg = flow_of(repo, pl), cfg_of(pl)
+    fx = repo.calls_to(pl, "cubed.core.rechunk._fix_copy_chunks")
+    ok = False
+    why = "no _fix_copy_chunks call"
+    for c_ in fx:
+        at = pcfg.node_of(c_)
+        lp = pcfg.nodes[at].loops
+        tgt = c_.args[2] if len(c_.args) > 2 else None
+        if tgt is None:
+            continue
+        stage_defs = [s for n_ in ast.walk(tgt) if isinstance(n_, ast.Name) for s in pfl.rdefs(n_.id, at) if s.value is not None and "stage_chunks" in unparse(s.value) + s.name]
+        per_stage = bool(lp) and any(pcfg.in_loop(s.node, lp[-1]) for s in stage_defs)
+        first = "[0]" in unparse(tgt) or any(s.value is not None and "[0]" in unparse(s.value) for s in stage_defs)
+        ok = per_stage
+        why = "" if ok else f"copy chunks are aligned against `{unparse(tgt, 40)}`, which does not depend on the stage chunks of the plan being tried: with more than one stage the first copy no longer lines up with the chunks it writes"
+    ctx.ob(pl, fx[0] if fx else None, ok, "regular rechunk planner: read (copy) chunks are re-aligned, for every stage count tried, against the chunks of the stage they are written to" + ("" if ok else f" — {why}"), sel="rechunk:regular-align")
     sp = repo.get(f"{A.OPS}.split_chunks")
     ok = any(isinstance(n, (ast.GeneratorExp, ast.ListComp)) and isinstance(n.generators[0].iter, ast.Call) and unparse(n.generators[0].iter.func) == "zip" and len(n.generators[0].iter.args) == 3 and not n.generators[0].ifs for n in sp.own_nodes())
     ctx.ob(sp, None, ok, "split_chunks treats every axis (zip over shape, source and target chunks, no filter)", sel="rechunk:all-axes")
